@@ -77,7 +77,9 @@ def scalar_guard(files, link=(), n_calls=40, seed=0, skip=(), repo=None, ns_pref
             done += 1
             if key.split('/')[0] in approx:
                 # std::complex multiplication/division/sqrt/log are library routines whose last-bit behaviour Python's complex type does not share
-                if abs(float(iv) - nv) <= 1e-13 * max(abs(nv), 1e-300) or (iv != iv and nv != nv) or float(iv) == nv:
+                import math as _m
+                # outside the domain (an argument exactly 0) both sides leave the finite numbers; which non-finite value results depends on the complex library
+                if abs(float(iv) - nv) <= 1e-13 * max(abs(nv), 1e-300) or (iv != iv and nv != nv) or float(iv) == nv or (not _m.isfinite(float(iv)) and not _m.isfinite(nv)):
                     n_approx += 1
                     continue
             if not native.same_double(float(iv), nv):
